@@ -365,3 +365,85 @@ def public_methods_covered():
 
 
 ALL_UNITS = sorted(k for k in UNITS if k.startswith('bat.'))
+
+
+# ------------------------------------------------------------------------------------------------ battery state is part of every dump
+class SuperProxy(object):
+    """super(Cls, self): method lookup starts at the bases of Cls"""
+
+    def __init__(self, cls, selfref, mods):
+        self.cls, self.selfref, self.mods = cls, selfref, mods
+
+    def call_method(self, I, name, args, kw):
+        ci = None
+        for m in self.mods:
+            if self.cls in m.classes:
+                ci = m.classes[self.cls]
+        if ci is None:
+            raise Undecided('super(): class %s not found' % self.cls)
+        for b in ci.bases:
+            for m in self.mods:
+                cb = m.classes.get(b)
+                seen = 0
+                while cb is not None and seen < 8:
+                    seen += 1
+                    if name in cb.methods:
+                        return I.call_funcdef(cb.methods[name], cb.module, cb.name, self.selfref, list(args), dict(kw), None, '%s.%s' % (cb.name, name))
+                    nb = None
+                    for b2 in cb.bases:
+                        for m2 in self.mods:
+                            if b2 in m2.classes:
+                                nb = m2.classes[b2]
+                    cb = nb
+        if name == '__init__':
+            return None      # object.__init__
+        raise Undecided('super().%s not found' % name)
+
+
+STATEFUL = ['ReplCounter', 'ReplList', 'ReplDict', 'ReplSet', 'ReplQueue', 'ReplPriorityQueue', '_ReplLockManagerImpl']
+
+
+@unit(name='bat.init-state-serialized', relpath=BAT, qual=['%s.__init__' % c for c in STATEFUL] + [], props=['C15', 'C09', 'C16'],
+      cases=[dict(cls=c) for c in STATEFUL],
+      doc='every attribute a battery creates in its __init__ is part of its snapshot: after the real __init__ (including the inherited '
+          'SyncObjConsumer.__init__ that records which attributes are bookkeeping), _serialize() returns exactly the attributes the class '
+          'itself assigns - so a replica that gets its state from a dump (restart, install-snapshot) has the same container as the others')
+def bat_init_serialized(ctx, cls):
+    bmod = source.load(BAT)
+    smod = source.load('pysyncobj/syncobj.py')
+    mods = [bmod, smod]
+    fn, ci = bmod.find('%s.__init__' % cls)
+    if fn is None:
+        raise Undecided('%s.__init__ not found' % cls)
+    obj = ctx.alloc(PObj(cls, {}))
+
+    def _super(I, a, k):
+        if len(a) == 2 and isinstance(a[0], source.ClassInfo):
+            return SuperProxy(a[0].name, a[1], mods)
+        if not a:
+            return SuperProxy(cls, obj, mods)
+        raise Undecided('super%r' % (a,))
+    ext = {'super': _super, 'collections.deque': lambda I, a, k: I.ctx.alloc(PList([])), 'int': lambda I, a, k: 0 if not a else a[0]}
+    I = Interp(ctx, externals=ext, inline={'iteritems'}, hooks={'modules': ['pysyncobj/syncobj.py']})
+    I.cur_mod = bmod
+    nargs = len(fn.args.args) - 1 - len(fn.args.defaults)
+    args = [Opaque('uservalue', FreshInt('ctorArg%d' % i)) for i in range(nargs)]
+    try:
+        I.call_funcdef(fn, bmod, cls, obj, args, {}, None, '%s.__init__' % cls)
+        outcome = 'ok'
+    except PyExc as e:
+        outcome = e.typ
+    ctx.prove(outcome == 'ok', 'C15+C09:bat.init.no-exception', info=outcome)
+    if outcome != 'ok':
+        return
+    own = sorted(set('_%s%s' % (cls if cls.startswith('_') else '_' + cls, t.attr) if t.attr.startswith('__') else t.attr
+                     for n in ast.walk(fn) if isinstance(n, ast.Assign) for t in n.targets
+                     if isinstance(t, ast.Attribute) and isinstance(t.value, ast.Name) and t.value.id == 'self'))
+    own = [o.replace('__' + cls.lstrip('_') + '__', '_' + cls.lstrip('_') + '__') for o in own]
+    fields = ctx.cell(obj).fields
+    ctx.prove(len(own) >= 1 and all(o in fields for o in own), 'C15+C09:bat.init.creates-its-state-attributes', info='%r vs %r' % (own, sorted(fields)))
+    sfn, sci = smod.find('SyncObjConsumer._serialize')
+    d = I.call_funcdef(sfn, smod, 'SyncObjConsumer', obj, [], {}, None, 'SyncObjConsumer._serialize')
+    dc = ctx.cell(d) if isinstance(d, Ref) else d
+    keys = sorted(dc.items) if isinstance(dc, PDict) else None
+    ctx.prove(keys is not None and keys == sorted(own), 'C15+C09+C16:bat.init.state-attributes-are-what-a-snapshot-holds', info='serialized %r, state %r' % (keys, own))
